@@ -285,21 +285,28 @@ func isDir(p string) bool {
 
 // Remove unlinks a file or removes an empty directory.
 func Remove(path string) error {
+	// as os.Remove: unlink(2), and when that fails rmdir(2) - two system calls, two points
 	if err := Begin("unlink", path); err != nil {
 		return PathErr("remove", path, err)
 	}
-	wasDir := isDir(path)
-	err := os.Remove(path)
-	if err != nil {
-		return err
+	e := syscall.Unlink(path)
+	if e == nil {
+		Notify(filepath.Dir(path), filepath.Base(path), uint32(InDelete))
+		return nil
 	}
-	mask := uint32(InDelete)
-	if wasDir {
-		mask |= InIsDir
+	if err := Begin("rmdir", path); err != nil {
+		return PathErr("remove", path, err)
+	}
+	e1 := syscall.Rmdir(path)
+	if e1 == nil {
 		NotifySelf(path, InDeleteSelf, true)
+		Notify(filepath.Dir(path), filepath.Base(path), uint32(InDelete)|InIsDir)
+		return nil
 	}
-	Notify(filepath.Dir(path), filepath.Base(path), mask)
-	return nil
+	if e1 != syscall.ENOTDIR {
+		e = e1
+	}
+	return &os.PathError{Op: "remove", Path: path, Err: e}
 }
 
 // RemoveAll removes a directory tree entry by entry (as rm -rf does), each unlink a point.
